@@ -309,7 +309,67 @@ func C19(r *core.Run) int {
 	}
 	close(ch)
 	wg.Wait()
+	// the same through --dir: every spec directory is an output directory of its own
+	dirHistories := 0
+	{
+		mkRoot := func(name string) string {
+			root := filepath.Join(r.Scratch, name)
+			for _, k := range []string{"A", "C", "F"} {
+				_ = os.MkdirAll(filepath.Join(root, "d"+k), 0o755)
+				_ = os.WriteFile(filepath.Join(root, "d"+k, "openapi.json"), specs[k], 0o644)
+				old := time.Date(2021, 1, 2, 3, 4, 5, 0, time.UTC)
+				_ = os.Chtimes(filepath.Join(root, "d"+k, "openapi.json"), old, old)
+			}
+			return root
+		}
+		invs := [][]string{
+			{"--package", "gen", "--spec", "openapi.json", "--client=true"},
+			{"--package", "gen", "--spec", "openapi.json", "--client=false", "--basepath", "/v2", "--donotedit=false"},
+			{"--package", "other", "--spec", "openapi.json", "--client=true", "--api-handler=false"},
+		}
+		for a := range invs {
+			for b := range invs {
+				if a == b {
+					continue
+				}
+				hid := fmt.Sprintf("dir-mode/%d->%d", a, b)
+				used, fresh := mkRoot(fmt.Sprintf("dirh-%d-%d", a, b)), mkRoot(fmt.Sprintf("dirf-%d-%d", a, b))
+				ok := true
+				for _, step := range []struct {
+					root string
+					inv  []string
+				}{{used, invs[a]}, {used, invs[b]}, {fresh, invs[b]}} {
+					if out, err := core.RunCmd(r.Scratch, time.Minute, nil, cli, append([]string{"--dir", step.root}, step.inv...)...); err != nil {
+						r.Report(core.Violation{Case: hid, Class: "invocation-failed", Message: core.Trunc(out, 200), Input: hid})
+						ok = false
+						break
+					}
+				}
+				cliRuns += 3
+				dirHistories++
+				if !ok {
+					continue
+				}
+				for _, k := range []string{"A", "C", "F"} {
+					got, want := snapshot(filepath.Join(used, "d"+k)), snapshot(filepath.Join(fresh, "d"+k))
+					for f, v := range want {
+						if got[f] != v {
+							r.Report(core.Violation{Case: hid, Class: "content-differs", Message: "d" + k + "/" + f + " differs from a single --dir run of the last invocation into fresh directories", Input: hid})
+						}
+					}
+					for f := range got {
+						if _, okf := want[f]; !okf {
+							r.Report(core.Violation{Case: hid, Class: "stale-file", Message: "d" + k + "/" + f + " is left over from an earlier invocation", Input: hid})
+						}
+					}
+				}
+				_ = os.RemoveAll(used)
+				_ = os.RemoveAll(fresh)
+			}
+		}
+	}
 	cov := map[string]any{
+		"dir_mode_histories":  dirHistories,
 		"evaluations":         len(histories),
 		"distinct_nontrivial": len(histories) - len(base),
 		"rule":                "one evaluation = one history of real CLI invocations into one directory holding user files, compared (names, sha256, user-file mtime) with a single run of its last invocation into an empty directory, then the last invocation repeated; distinct = histories of length >= 2; exhaustive part: all 584 histories of length <= 3 over {spec with / without components} x {client on/off} x {api-handler on/off}; random part: length 4-8 over 6 specs (longer/shorter outputs, one whose output does not format, one without operations), do-not-edit on/off, two package names, base path absent / v1 / v2",
